@@ -73,6 +73,13 @@ def run(chk):
     def cases():
         for ver in ('2.0', '2.1'):
             for label, cat, cls, kw, o, d in O.corpus(ver, alts=alts if chk.tier == 'thorough' else (0, 1)):
+                # the input is the generator's own value for every property it chose (not the library's rendering of it): what the library does to a value on the way in must show
+                d = dict(d)
+                for k, v in kw.items():
+                    if k.startswith('_'): continue
+                    if ver == '2.0' and isinstance(v, str) and T.TS_RE.match(v) and k in ('created', 'modified'): continue      # (2.0 created/modified are millisecond-exact: the generator's finer values are not valid input there)
+                    try: d[k] = json.loads(json.dumps(v))
+                    except (TypeError, ValueError): pass
                 if T.validate(d, ver, cat): continue        # only inputs the independent validator calls valid
                 yield (ver, label, cat, d)
 
@@ -170,6 +177,26 @@ def run(chk):
             if not same_value(x, out): return (f'preserve#observed-data container:{name}', f'observed-data container "{name}" ({fname}) not preserved', {'input': x, 'output': out})
     chk.bounded('STIX 2.0 observed-data containers with forward and backward member references', list(container_cases()), check_container, classify=lambda c: c[0],
                 bound='8 containers after the specification text (e-mail, network traffic incl. encapsulation, directory, process tree, file / directory / process times in any order), bare and in a bundle')
+
+    # ---- identifiers and references spelled with upper-case hexadecimal digits (RFC 4122 reads them case-insensitively; the library keeps them as given)
+    UP = 'ABCDEF12-3456-4ABC-8DEF-ABCDEF123456'
+    def upper_cases():
+        for ver in ('2.0', '2.1'):
+            sv = {'spec_version': '2.1'} if ver == '2.1' else {}
+            ident = dict({'type': 'identity', 'id': 'identity--' + UP, 'created': G.T1, 'modified': G.T1, 'name': 'n', 'identity_class': 'individual', 'created_by_ref': 'identity--' + UP.replace('A', 'a', 1)}, **sv)
+            yield (ver, 'object id and reference', ident)
+            yield (ver, 'relationship references', dict({'type': 'relationship', 'id': 'relationship--' + UP, 'created': G.T1, 'modified': G.T1, 'relationship_type': 'uses', 'source_ref': 'identity--' + UP, 'target_ref': 'identity--' + G.UUID,
+                                                          'object_marking_refs': ['marking-definition--' + UP]}, **sv))
+            yield (ver, 'bundle id and member', dict({'type': 'bundle', 'id': 'bundle--' + UP, 'objects': [ident]}, **({'spec_version': '2.0'} if ver == '2.0' else {})))
+        yield ('2.1', 'observable id', {'type': 'file', 'spec_version': '2.1', 'id': 'file--' + UP, 'name': 'f', 'parent_directory_ref': 'directory--' + UP})
+
+    def check_upper(case):
+        ver, name, d = case
+        try: o = stix2.parse(copy.deepcopy(d), allow_custom=False)
+        except Exception as ex: return (f'reject#upper-case identifier:{name}', f'{ver} {name}: identifier with upper-case hexadecimal digits refused: {type(ex).__name__}: {str(ex)[:140]}', {'input': d})
+        out = json.loads(o.serialize())
+        if not same_value(d, out): return (f'preserve#upper-case identifier:{name}', f'{ver} {name}: not preserved: {out}', {'input': d})
+    chk.bounded('identifiers with upper-case hexadecimal digits', list(upper_cases()), check_upper, classify=lambda c: c[:2], bound='own id, references, reference lists, bundle id, observable id; both versions')
 
     # ---- boundary of the order rules: equal instants (same and different spelling) are legal wherever the specification says "later than or equal to"
     def equal_cases():
